@@ -175,10 +175,7 @@ def crash_check(chk, lean_ok):
     cov = {}
     if not chk.harness():
         return cov
-    so = os.path.join(VERIF, "interpose", "fsfault.so")
-    b = run(["gcc", "-shared", "-fPIC", "-O2", "-o", so, os.path.join(VERIF, "interpose", "fsfault.c"), "-ldl"])
-    if b.returncode != 0 or not os.path.exists(so):
-        chk.problems.append(("infra", "cannot build the interposer: " + b.stderr[-400:]))
+    if not build_interposer(chk):
         return cov
     plan = {"quick": ([("lifecycle", 60), ("rollback", 40), ("mixed", 40)], 220),
             "thorough": ([("lifecycle", 400), ("rollback", 300), ("mixed", 300), ("signing", 150), ("release", 150)], 4000)}[chk.tier]
@@ -230,11 +227,72 @@ def crash_check(chk, lean_ok):
         k = ops_of(block)[p].split()[1]
         op_kinds[k] = op_kinds.get(k, 0) + 1
     cov.update(evaluations=points, distinct_nontrivial=points,
-               rule="one evaluation = one fault: the real library killed immediately before (mode kill) or half-way through (torn) its k-th mutating file-system call of a launch [init ; call], or that call failing with EIO/ENOSPC while execution continues (eio; judged only, no theorem), followed by a real re-launch; k enumerates every such call of the launch",
+               rule="one evaluation = one fault: the real library killed immediately before (mode kill) or half-way through (torn) its k-th mutating file-system call of a launch [init ; call], or that call failing with EIO/ENOSPC while execution continues (eio; judged by the conclusion and the invariant of eio_safe_* / eio_inv), followed by a real re-launch; k enumerates every such call of the launch",
                experiments=experiments, crash_points=points, disagreements_relevant=diffs, monitor_rejections=jfails,
                experiment_kinds=modes, interrupted_calls=op_kinds,
                samples=[{"experiment": eid, "interrupted_call": ops_of(block)[p][2:80], "release_change": bool(nv), "mode": mode}
                         for eid, block, p, nv, mode, lines in results[:3]])
+    return cov
+
+
+def build_interposer(chk):
+    so = os.path.join(VERIF, "interpose", "fsfault.so")
+    b = run(["gcc", "-shared", "-fPIC", "-O2", "-o", so, os.path.join(VERIF, "interpose", "fsfault.c"), "-ldl"])
+    if b.returncode != 0 or not os.path.exists(so):
+        chk.problems.append(("infra", "cannot build the interposer: " + b.stderr[-400:]))
+        return False
+    return True
+
+
+def c12_runtime(chk, results):
+    """C12, the half a trace-level theorem cannot exhibit.
+    (a) `drive --hung`: an update is parked inside its event / patch-check / download callback (a hung
+        connection); every other exported call, issued from another thread, must return within 10 s, and a second
+        update must answer 'already in progress'.
+    (b) error paths: for sampled positions of the campaign's histories, the launch is re-run with its k-th mutating
+        file-system call failing with EIO, for every k; a call that then never returns (the harness's watchdog ends
+        the process) is a deadlock — an error path that re-enters or does not release a lock."""
+    import crash as crashmod
+    cov = {}
+    p = run([DRIVE_BIN, "--hung"], env=ENV, timeout=600)
+    lines = [l for l in p.stdout.splitlines() if l.startswith("HUNG ")]
+    bad = [l for l in lines if "verdict=ok" not in l]
+    cov["hung_update_scenario"] = {"stages": ["event", "check", "download"], "calls_timed": len(lines), "limit_ms": 10000,
+                                   "blocked_or_wrong": len(bad)}
+    if p.returncode != 0 or len(lines) < 27 or bad:
+        why = bad[0] if bad else "the scenario did not complete: rc=%d %s" % (p.returncode, p.stderr[-300:].replace("\n", " "))
+        path = chk.save_replay("C12-hung-update.txt", "# hung-scenario\n# C12: %s\n# replay: tools/replay.sh <this file>   (runs the harness's `drive --hung`)\n%s\n"
+                               % (why, "\n".join(lines)))
+        chk.violations.append({"replay": path, "signature": "hung-update:" + re.sub(r"ms=[0-9]+", "ms=N", why)[:120], "why": why})
+    if not build_interposer(chk):
+        return cov
+    text = "\n".join(r[0] for r in results if r[0])
+    n = {"quick": 48, "thorough": 600}[chk.tier]
+    os.environ["VERIF_WATCHDOG_SECS"] = "8"
+    ENV["VERIF_WATCHDOG_SECS"] = "8"
+    try:
+        res = crashmod.campaign(text, chk.seed, n, release_change_pct=10, torn_pct=0, eio_pct=100)
+    finally:
+        ENV.pop("VERIF_WATCHDOG_SECS", None)
+        os.environ.pop("VERIF_WATCHDOG_SECS", None)
+    faults = hangs = 0
+    seen = set()
+    for eid, block, pos, nv, mode, lines in res:
+        for l in lines or []:
+            if not l.startswith("X "):
+                continue
+            faults += 1
+            if "ABNORMAL" in l and ("HANG" in l or "rc=4" in l or "timed out" in l):
+                hangs += 1
+                call = ops_of(block)[pos].split()[1]
+                sig = "eio-hang:" + call
+                if sig in seen:
+                    continue
+                seen.add(sig)
+                why = "C12: after a failed file-system operation (%s) a call never returned: %s" % (l.split("|")[0].strip(), l.split("|", 1)[1].strip()[:200])
+                path = chk.save_replay("C12-%s.kx" % hashlib.sha1(sig.encode()).hexdigest()[:10], crashmod.make_replay_file(block, pos, nv, mode, why))
+                chk.violations.append({"replay": path, "signature": sig, "why": why})
+    cov["error_path_scan"] = {"experiments": len(res), "faults_injected": faults, "calls_that_never_returned": hangs}
     return cov
 
 
